@@ -22,6 +22,7 @@ fn main() {
         "c06" => drivers::c06::drive(&rest),
         "c14" => drivers::c14::drive(&rest),
         "c15" => drivers::c15::drive(&rest),
+        "c16" => drivers::c16::drive(&rest),
         other => {
             eprintln!("unknown command {other}");
             2
